@@ -529,12 +529,19 @@ var fixed = []string{
 	`<div><a href=1>tk0001x</a> <a href=2>tk0002x</a> <a href=3>tk0003x</a> <a href=4>tk0004x</a></div><div><p>tk0005x text</p></div>`,
 	`<div><li><p>tk0001x para in a stray li</p></li><li>tk0002x stray item<ul><li>tk0003x nested</li></ul></li></div><p>tk0004x</p>`,
 	`<blockquote><nav><p>tk0001x</p></nav><p>tk0002x</p></blockquote><h2>caf&eacute; &amp; &#x4e2d; tk0003x &lt;b&gt;</h2>`,
+	// elements sharing a class value outside the vocabulary, told apart by id / role only
+	`<div class="card" id="sidebar"><p>tk0001x</p></div><div class="card"><p>tk0002x</p></div><div class="card" id="story-1"><p>tk0003x</p></div><ul class="card" role="navigation"><li>tk0004x</li></ul><ul class="card"><li>tk0005x</li></ul>`,
+	`<div class="row"><p>tk0001x</p></div><div class="row" id="main-menu"><p>tk0002x</p></div><p class="row">tk0003x</p><section class="row"><h2 class="row" id="footer">tk0004x</h2><p class="row">tk0005x</p></section>`,
 }
 
 func genCase(seed uint64, index int) (*kase, []byte, *genInfo) {
 	r := hx.NewRng(seed).Fork(uint64(index))
 	g := newGen(r, r.Range(3, 40))
 	doc, layout := g.document()
+	// families of elements sharing a neutral class value (a pass with a generator of its own)
+	if r2 := hx.NewRng(seed).Fork(uint64(index)).Fork(1919); r2.Chance(2, 5) {
+		g.shareClasses(doc, r2)
+	}
 	o := serOpts{doctype: r.Intn(3), omitEnd: r.Chance(1, 3), omitWrap: r.Chance(1, 4), upper: r.Chance(1, 5),
 		indent: r.Chance(1, 2), unclosedFmt: r.Chance(1, 6), selfClose: r.Chance(1, 3), entities: r.Intn(2), xmlProlog: r.Chance(1, 8)}
 	chunks, ent := serialize(r, doc, o)
@@ -562,7 +569,7 @@ func countNote(c *hx.Ctx, note string) {
 func Run(c *hx.Ctx) {
 	c.Rep.Rule = "DOM trees generated from a grammar of content elements (h1-6, p, nested/loose lists, tables with spans and sections, pre/code, blockquote) " +
 		"and block containers (div, p in quirks mode, section, article, blockquote, li, td, …) whose children interleave inline runs (text, inline elements with navigation-like attributes, blank runs) with block-level children, wrappers around blocks and nested containers of the same kind, " +
-		"mixed with nav/aside/header/footer, ARIA roles, class/id names from and near the exclusion vocabulary, link-dense/sparse blocks and skipped elements, " +
+		"mixed with nav/aside/header/footer, ARIA roles, class/id names from and near the exclusion vocabulary, families of elements that share one ordinary class value and differ in id/role (two documents in five), link-dense/sparse blocks and skipped elements, " +
 		"at depth up to 10, in six page layouts; written by an independent HTML writer (entity forms, optional tags omitted, mixed case, unclosed formatting) and, " +
 		"for one case in five, damaged (truncation, dropped/stray/duplicated tags, garbage); every content element carries a unique token; each document is read in " +
 		"all four modes through htmldoc.Open/OpenReader, tabula.Open/FromHTMLString/FromHTMLReader and an EPUB built around it. Non-trivial = mode None returns non-empty text. " +
